@@ -121,6 +121,19 @@ def audit_check(S, prop):
     S.observe("audit_orders", "ascending size, descending size (checked build)")
 
 
+def both_builds(S, prop, requests, label):
+    """Answer `requests` with the release AND the checked harness; the replies must be the same. Returns the release replies."""
+    a = run_all([dict(q) for q in requests], _audit=False)
+    b = run_all([dict(q) for q in requests], kind="ovf", _audit=False)
+    for q, r1, r2 in zip(requests, a, b):
+        S.count("both_builds_" + label)
+        if _norm(r1) != _norm(r2):
+            brief = {k: (v if len(str(v)) < 200 else str(v)[:200] + "...") for k, v in q.items() if k != "id"}
+            S.viol("%s:builds-differ:%s" % (prop, label), "[%s] the checked build (overflow traps, unsafe-precondition checks) answers differently from the release build: %s vs %s for %s" % (
+                label, _norm(r2)[:300], _norm(r1)[:300], str(brief)[:300]), {"level": "L", "audit": {"order": "single request", "request": {k: v for k, v in q.items() if k != "id"}}})
+    return a
+
+
 def run_all(requests, kind="release", timeout=600, mem_limit=None, _audit=True):
     """Like run(), but restarts the harness after a request that killed it, so that every request
     gets an answer (the killer gets {'died': True})."""
